@@ -75,13 +75,18 @@ class G:
         self.nodes.append((kind, list(kids)) if tag is None else (kind, [str(tag)] + list(kids)))
         return len(self.nodes) - 1
 
+    def lx(self, *tokens):
+        """a list computed by a Steel expression over defined nodes: tokens are strings and node ids"""
+        self.nodes.append(("lx", list(tokens)))
+        return len(self.nodes) - 1
+
     def is_leaf(self, i):
-        return self.nodes[i][0] not in CONTAINERS
+        return self.nodes[i][0] not in CONTAINERS and self.nodes[i][0] != "lx"
 
     def kids(self, i):
         k, a = self.nodes[i]
         if k not in CONTAINERS:
-            return []
+            return []          # (the elements of an `lx` list are known to the real code only)
         return a[1:] if k == "struct" else a
 
     def copy(self, i, mutate=None, share=None):
@@ -126,7 +131,7 @@ class G:
     def lines(self, prefix):
         out = []
         for i, (k, a) in enumerate(self.nodes):
-            args = [(prefix + str(x)) if isinstance(x, int) else x for x in a]
+            args = [(prefix + str(x)) if isinstance(x, int) and not isinstance(x, bool) else x for x in a]
             out.append("def %s%d %s %s" % (prefix, i, k, " ".join(args)))
         for (op, a, b) in self.queries:
             out.append("%s %s%d %s%d" % (op, prefix, a, prefix, b))
@@ -274,6 +279,92 @@ def gen_dag_cases(rng, quick):
         right = mk_outer(g, outer, [slot(s) for s in rp])
         ask(g, left, right)
         ask(g, right, left, ("eq",))
+    return cases
+
+
+LX_LENGTHS_QUICK = [1, 2, 3, 4, 5, 7, 8, 9, 11, 12, 13, 16, 17, 27, 28, 29, 32, 33, 60, 61]
+LX_LENGTHS_MORE = [15, 31, 59, 63, 64, 65, 123, 124, 125, 127, 128, 129, 251, 252, 253, 255, 256, 257, 507, 508, 509, 512]
+
+
+def gen_shared_node_cases(rng, quick):
+    """Lists that are DIFFERENT values but share nodes of the unrolled list (K11j), and lists that are EQUAL
+    values built over different nodes: append / cons / cdr / list-tail / take / drop / reverse / map / range
+    applied to common base lists whose lengths sit at and around the node capacities (4, 8, 16, .. 256;
+    cumulative 4, 12, 28, 60, 124, 252, 508).  Every pair is compared (equal?, Hash, as key / member), and
+    the interesting ones again nested inside every container kind, so that the visited set is involved."""
+    cases = []
+    lengths = LX_LENGTHS_QUICK if quick else LX_LENGTHS_QUICK + LX_LENGTHS_MORE
+    for L in lengths:
+        g = G()
+        pool = [g.leaf(("int", str(i))) for i in range(10)]          # ids 0..9 = ints 0..9
+        other = g.leaf(("int", "77"))
+        el = [pool[i % 10] for i in range(L)]
+        y = g.node("list", el)
+        z = g.node("list", el)
+        k1 = max(0, L - 1)
+        kb = max(k for k in (0, 4, 12, 28, 60, 124, 252, 508) if k <= L)      # a node boundary inside y
+        kh = L // 2
+        tail5 = g.node("list", [pool[1], pool[2], pool[3], pool[4], pool[5]])
+        tail5b = g.node("list", [pool[1], pool[2], pool[3], pool[4], pool[6]])
+        d = {}
+        d["A1"] = g.lx("(append", y, "(list", pool[4], "))")
+        d["A2"] = g.lx("(append", y, "(list", pool[4], "))")
+        d["B"] = g.lx("(append", y, "(list", pool[5], "))")               # shares y's nodes with A1, differs at the end
+        d["A3"] = g.lx("(append", z, "(list", pool[4], "))")               # equal to A1, other nodes
+        d["AL1"] = g.lx("(append", y, tail5, ")")
+        d["AL2"] = g.lx("(append", y, tail5b, ")")
+        d["AA"] = g.lx("(append", y, y, ")")
+        d["AZ"] = g.lx("(append", y, z, ")")
+        d["C1"] = g.lx("(cons", pool[0], y, ")")
+        d["C2"] = g.lx("(cons", pool[0], y, ")")
+        d["CD"] = g.lx("(cons", other, y, ")")
+        d["CC"] = g.lx("(cons", pool[0], "(cons", pool[0], y, "))")
+        d["T1"] = g.lx("(cdr", y, ")")
+        d["T2"] = g.lx("(list-tail", y, "1)")
+        d["T3"] = g.lx("(cdr", z, ")")
+        d["DR"] = g.lx("(drop", y, "%d)" % kh)
+        d["LT"] = g.lx("(list-tail", z, "%d)" % kh)
+        d["K1"] = g.lx("(take", y, "%d)" % k1)
+        d["K1z"] = g.lx("(take", z, "%d)" % k1)
+        d["KL"] = g.lx("(take", y, "%d)" % L)
+        d["KB"] = g.lx("(take", y, "%d)" % kb)
+        d["P"] = g.lx("(append (take", y, "%d) (list-tail" % kb, y, "%d))" % kb)      # = y, other node structure
+        d["PH"] = g.lx("(append (take", y, "%d) (list-tail" % kh, z, "%d))" % kh)
+        d["RR"] = g.lx("(reverse (reverse", y, "))")
+        d["RV"] = g.lx("(reverse", y, ")")
+        d["RVz"] = g.lx("(reverse", z, ")")
+        d["M"] = g.lx("(map (lambda (x) x)", y, ")")
+        d["TA"] = g.lx("(cdr", d["C1"], ")")                                  # is y itself
+        d["TB"] = g.lx("(list-tail", d["A1"], "1)")
+        d["TBb"] = g.lx("(list-tail", d["B"], "1)")
+        d["EA"] = g.lx("(list-tail", d["A1"], "%d)" % L)                      # the appended node alone
+        d["EB"] = g.lx("(list-tail", d["B"], "%d)" % L)
+        if L <= 10:
+            d["RG"] = g.lx("(range 0 %d)" % L)
+        names = list(d)
+        ids = [y, z] + [d[k] for k in names]
+        # every pair at top level (equal?, hash, key); quick: all pairs for eq, a sample for hq/key
+        for a in ids:
+            for b in ids:
+                if quick and rng.random() < 0.6:
+                    ask(g, a, b, ("eq",))
+                else:
+                    ask(g, a, b)
+        # nested: slots from lists that share nodes (A1, B, AL1, AL2, C1, CD) and equal copies (A2, A3, C2)
+        groups = [("A1", "A2", "A3", "B"), ("AL1", "AL1", "AL2", "AL2"), ("C1", "C2", "CD", "CC"), ("TB", "TBb", "T1", "T2"),
+                  ("EA", "EB", "A1", "B")]
+        for outer in OUTER:
+            for grp in groups:
+                slots = [d[k] for k in grp]
+                npat = 6 if quick else 40
+                for _ in range(npat):
+                    lp = [rng.choice(slots) for _ in range(2)]
+                    rp = [rng.choice(slots) for _ in range(2)]
+                    left = mk_outer(g, outer, lp)
+                    right = mk_outer(g, outer, rp)
+                    ask(g, left, right)
+                    ask(g, right, left, ("eq",))
+        cases.append(g)
     return cases
 
 
@@ -428,6 +519,10 @@ def judge_graph(ctx, label, g, hin, hl, dl, stats):
                 probs.append(("violation", "`%s`: equal? through the engine = %s but Rust == = %s" % (q, real, rust)))
             if d.get("wf") != "true":
                 probs.append(("model", "`%s`: generated graph is not well formed: %s" % (q, m)))
+                continue
+            if d.get("sig") != "true":
+                probs.append(("violation", "`%s`: two real lists with the same (storage, index, next node) have different "
+                                           "elements: the assumption ListSigOK about im-lists does not hold: %s" % (q, m)))
                 continue
             if d.get("keys") != "true":
                 # the definitions are the resolved ones: the REAL hash map holds two keys with equal unfoldings
@@ -835,6 +930,7 @@ def run(ctx):
     run_graph_cases(ctx, gen_key_cases(), "keys", stats, batch_size=1)
     dag = gen_dag_cases(rng, quick)
     run_graph_cases(ctx, dag, "dag", stats, batch_size=4)
+    run_graph_cases(ctx, gen_shared_node_cases(rng, quick), "lx", stats, batch_size=1)
     nrand = 1500 if quick else 40000
     nmax = 12 if quick else 40
     done = 0
